@@ -14,5 +14,5 @@ assert s.count(old)>=1, "pattern not found"
 open(p,'w').write(s.replace(old,new,1))
 PY
 cd /verif
-VERIF_EVIDENCE_DIR=$D/evidence VERIF_REPO=$D ./check $ID --tier quick | grep -v "^  refuted" | cut -c1-220 | tail -${5:-6}
+VERIF_EVIDENCE_DIR=$D/evidence VERIF_REPLAY_DIR=$D/replays VERIF_REPO=$D ./check $ID --tier quick | grep -v "^  refuted" | cut -c1-220 | tail -${5:-6}
 echo "exit=${PIPESTATUS[0]}"
